@@ -18,6 +18,7 @@ package main
 //   json <v>                                 -> <v'> | err:<class>         (encoding/json trip of a Constant's value)
 //   jsonty <t>                               -> <t'> | err
 //   pred …                                   see c26_pred.go
+//   e2e …                                    see c26_e2e.go
 //
 // <wire> = same | diff | err:utf8 | err:other   (proto.Marshal, proto.Unmarshal, dump again)
 // Values use the shared token codec, except that times may lie outside the int64 UnixNano range
@@ -25,10 +26,12 @@ package main
 
 import (
 	"bufio"
+	"bytes"
 	"encoding/hex"
 	"fmt"
 	"math"
 	"math/big"
+	"runtime/debug"
 	"strconv"
 	"strings"
 	"time"
@@ -273,8 +276,16 @@ func str26(f func(sb *strings.Builder)) string {
 
 // ---------- ops
 
+var gcTuned26 bool
+
 func driveC26(toks []string) string {
 	c11QuietLog()
+	if !gcTuned26 {
+		// functions.FunctionMap() (called by every RepopulatePhysicalExpressionFunctions) allocates a fresh ristretto
+		// cache each time; with the default GC target most of the run time is spent scanning those
+		debug.SetGCPercent(1000)
+		gcTuned26 = true
+	}
 	switch toks[0] {
 	case "val":
 		v, _ := p26Value(toks[1:])
@@ -415,6 +426,8 @@ func driveC26(toks []string) string {
 		}) + " | " + wireTrip(p, &plugins.VerifExecutionVariableContext{}, dump)
 	case "repop", "json", "jsonty", "pred", "rawval":
 		return driveC26b(toks)
+	case "e2e":
+		return driveC26e2e(toks)
 	}
 	return "bad-op"
 }
@@ -535,7 +548,32 @@ func c26RandValues(g *Gen, depth int) string {
 	return enc26Values(vs)
 }
 
-func genC26(g *Gen, tier string, w *bufio.Writer) {
+// genC26 spreads the (slow) end-to-end lines evenly over the other lines, so that bin/check's contiguous chunks
+// each get a share of them.
+func genC26(g *Gen, tier string, out *bufio.Writer) {
+	var a, b bytes.Buffer
+	wa, wb := bufio.NewWriter(&a), bufio.NewWriter(&b)
+	genC26codec(g, tier, wa)
+	genC26e2e(g, tier, wb)
+	wa.Flush()
+	wb.Flush()
+	la := strings.Split(strings.TrimRight(a.String(), "\n"), "\n")
+	lb := strings.Split(strings.TrimRight(b.String(), "\n"), "\n")
+	step := len(la)/len(lb) + 1
+	j := 0
+	for i, l := range la {
+		if i%step == 0 && j < len(lb) {
+			fmt.Fprintln(out, lb[j])
+			j++
+		}
+		fmt.Fprintln(out, l)
+	}
+	for ; j < len(lb); j++ {
+		fmt.Fprintln(out, lb[j])
+	}
+}
+
+func genC26codec(g *Gen, tier string, w *bufio.Writer) {
 	scale := 1
 	if tier == "thorough" {
 		scale = 20
